@@ -774,16 +774,19 @@ package gorums
 
 //@ func (*channel).setLastErr
 //@   props C15
+//@   inline
 //@   mode concurrent
 //@   requires c != nil
 //@   blocks never
 //@ func (*channel).lastErr
 //@   props C15
+//@   inline
 //@   mode concurrent
 //@   requires c != nil
 //@   blocks never
 //@ func (*channel).channelLatency
 //@   props C15
+//@   inline
 //@   mode concurrent
 //@   requires c != nil
 //@   blocks never
